@@ -179,6 +179,12 @@ def run_rules(ctx, chk):
                 n6 += 1
                 chk.ob('C03.G6', '%s:%s' % (o['rule'], o['key']), o['ok'], o['where'],
                        'a restarted daemon keeps the generation sequence of a usable segment: ' + o['detail'])
+            elif o['rule'] == 'C04.T2' and o['key'].startswith('new:file-mutator') and not o['ok']:
+                # a file operation the start-up analysis does not account for (rename, unlink, link ...): a segment replaced
+                # by a *different file* leaves every attached reader on the old one, where no publication ever arrives
+                chk.ob('C03.G6', '%s:%s' % (o['rule'], o['key']), False, o['where'],
+                       'attached readers must see the publications of a restarted daemon (the segment is re-initialised in '
+                       'place, same file): ' + o['detail'])
         chk.floor('C03.G6', 'restart obligations', n6, 2)
     for need in ('version==0', 'generation==0', 'generation==cached', 'generation odd'):
         chk.ob('C03.G1', 'reason-present:%s' % need, need in reasons_seen, r.body.where(0),
